@@ -874,6 +874,13 @@ def run_function(E, fname, args, depth=0):
             elif op == 'icmp':
                 a = val(i.a, i.ty); b = val(i.b, i.ty); t = m.resolve(i.ty)
                 if isinstance(a, tuple) or isinstance(b, tuple):
+                    if (z3.is_bv(a) and isinstance(b, tuple) and b[0] == 0 and isinstance(b[1], int)) or (z3.is_bv(b) and isinstance(a, tuple) and a[0] == 0 and isinstance(a[1], int)):
+                        # an uninitialised pointer slot (symbolic word) compared with a null-based constant: plain integer comparison
+                        bvv, kk = (a, b[1]) if z3.is_bv(a) else (b, a[1])
+                        if i.pred in ('eq', 'ne'):
+                            r_ = z3.simplify(bvv == kk) if i.pred == 'eq' else z3.simplify(bvv != kk)
+                            regs[i.dest] = True if z3.is_true(r_) else False if z3.is_false(r_) else r_
+                            continue
                     if isinstance(a, int): a = (0, a)
                     if isinstance(b, int): b = (0, b)
                     if not (isinstance(a[1], int) and isinstance(b[1], int)):
@@ -1051,11 +1058,15 @@ def call(E, nm, av, i, depth, caller):
     if nm == '@__verif_check':
         c = av[0]
         if isinstance(c, int) and not isinstance(c, bool): c = bool(c & 1)
-        E.obligations.append(('verif_check #%d' % (sum(1 for o in E.obligations if o[0].startswith('verif_check')) + 1), c)); return None
+        E.ncheck = getattr(E, 'ncheck', 0) + 1
+        E.obligations.append(('verif_check #%d' % E.ncheck, c)); return None
     if nm == '@__CPROVER_assume':
         c = av[0]
         if isinstance(c, int) and not isinstance(c, bool): c = (c != 0)
         elif z3.is_bv(c): c = (c != 0)
+        # assumptions are NOT retroactive: obligations recorded before this point are decided now, under the path condition they were
+        # recorded in (otherwise `check(x); assume(x);` would discharge itself)
+        if E.solver is not None and E.obligations and not (isinstance(c, bool) and c) and not (z3.is_expr(c) and z3.is_true(z3.simplify(c))): seal_obligations(E)
         E.assume(c); return None
     if nm == '@__verif_error_hook': E.errors += 1; return None
     if nm.startswith('@nondet_') and nm not in m.funcs:
@@ -1265,6 +1276,18 @@ def decide(E, ms):
     if r == z3.sat: return r, E.solver.model()
     if r == z3.unknown and real: return nlsat_check(E, ms)
     return r, None
+
+def tiny_extra(E):
+    """stated exclusion: quantities guarded by +DBL_MIN are not within 2^-940 of zero (inputs may be exactly zero)"""
+    if not getattr(E.fp, 'tiny_sites', None): return None
+    BIG = RV(Fraction(1, 2**940))
+    return z3.And([(z3.Or(x >= BIG, x <= -BIG) if contains_uf(x) else z3.Or(x == 0, x >= BIG, x <= -BIG)) for x in E.fp.tiny_sites])
+
+def seal_obligations(E):
+    """decide the obligations recorded so far under the CURRENT path condition and set them aside"""
+    res = check_obligations(E, tiny_extra(E))
+    E.sealed = getattr(E, 'sealed', []) + res; E.obligations = []
+    if hasattr(E, '_path_model'): del E._path_model
 
 def check_obligations(E, extra_assume=None):
     """decide every obligation recorded on this path: returns list of (name, verdict, model_or_None)"""
